@@ -225,6 +225,16 @@ func (m *ObservedMap) Range(op func(key Key, isDeep bool, val bool)) {
 	}
 }
 
+// ResultIsAnnotatedNilable returns true iff the docstring of the function `fdecl`, declared in this
+// package, explicitly annotates its result `retNum` as nilable.
+func (m *ObservedMap) ResultIsAnnotatedNilable(fdecl *types.Func, retNum int) bool {
+	if m == nil {
+		return false
+	}
+	vals := m.funcRetAnnMap[fdecl]
+	return retNum < len(vals) && vals[retNum].IsNilableSet && vals[retNum].IsNilable
+}
+
 const nilableKeyword = "nilable"
 const nonNilKeyword = "nonnil"
 
